@@ -411,4 +411,77 @@ theorem go_ok {c : CallId} {e : Ep} (outs : List Outcome) :
           split at hstep <;> cases hstep
     · cases h
 
+/-! ### what holds of "first tried next" under ANY interleaving -/
+
+open Lumina.Spec.C44 (specFirstAny) in
+/-- the head of the register is the endpoint of the most recent fail-over success, else the
+    first configured endpoint -/
+def HeadInv (cfg : List Ep) (s : State) (lf : Option Ep) : Prop :=
+  s.register.head? = (match lf with | some e => some e | none => cfg.head?)
+
+theorem headInv_step {cfg : List Ep} {s s' : State} {l : Label} {em : Emit} {lf : Option Ep}
+    (hi : HeadInv cfg s lf) (hs : step s l = some (s', em)) : HeadInv cfg s' (lfStep s l lf) := by
+  cases l with
+  | load c =>
+    simp only [step] at hs
+    split at hs
+    · cases hs
+    · split at hs <;> cases hs <;> exact hi
+  | drop c =>
+    simp only [step] at hs
+    split at hs <;> cases hs
+    exact hi
+  | respond c o =>
+    simp only [step] at hs
+    split at hs
+    · cases hs
+    · rename_i k hk
+      split at hs
+      · cases hs
+      · rename_i e he
+        cases o with
+        | ok =>
+          simp only at hs
+          cases hs
+          simp only [lfStep, true_or, ↓reduceIte, hk, he]
+          unfold HeadInv
+          split
+          · rename_i hpos
+            exact swap0_head he hpos
+          · rename_i hpos
+            exact hi
+        | badPayload =>
+          simp only at hs
+          cases hs
+          simp only [lfStep, or_true, ↓reduceIte, hk, he]
+          unfold HeadInv
+          split
+          · rename_i hpos
+            exact swap0_head he hpos
+          · rename_i hpos
+            exact hi
+        | status code =>
+          simp only at hs
+          have hlf : lfStep s (.respond c (.status code)) lf = lf := by simp [lfStep]
+          rw [hlf]
+          split at hs
+          · split at hs <;> cases hs <;> exact hi
+          · cases hs; exact hi
+        | transport =>
+          simp only at hs
+          have hlf : lfStep s (.respond c .transport) lf = lf := by simp [lfStep]
+          rw [hlf]
+          split at hs <;> cases hs <;> exact hi
+
+theorem headInv_run {cfg : List Ep} {s s' : State} {lf lf' : Option Ep} {ls : List Label}
+    (hi : HeadInv cfg s lf) (hr : runLF s lf ls = some (s', lf')) : HeadInv cfg s' lf' := by
+  induction ls generalizing s lf with
+  | nil => simp [runLF] at hr; rw [← hr.1, ← hr.2]; exact hi
+  | cons l ls ih =>
+    simp only [runLF] at hr
+    split at hr
+    · rename_i s1 e1 hs1
+      exact ih (headInv_step hi hs1) hr
+    · cases hr
+
 end Lumina.Proofs.Failover
